@@ -118,7 +118,7 @@ def _cache_guard(fa: FnAlias, node, attr: str) -> Optional[str]:
             return False
         txt = unparse(n.ast)
         for nm in names:
-            if f"hasattr(self, '{nm}')" in txt or f'hasattr(self, "{nm}")' in txt:
+            if f"hasattr(self, '{nm}')" in txt or f'hasattr(self, "{nm}")' in txt or f"getattr(self, '{nm}'" in txt or f'getattr(self, "{nm}"' in txt:
                 return True
             for sub in ast.walk(n.ast):
                 if isinstance(sub, ast.Attribute) and path_of(sub) == f"self.{nm}":
@@ -534,8 +534,9 @@ def _r5(chk, repo):
         ci = repo.cls(spec)
         init = repo.method(ci, "__init__")[1]
         tparam = func_params(init)[1]
+        from .common import assigned_values
         asg = [n for n in ast.walk(init) if isinstance(n, ast.Assign) and path_of(n.targets[0]) == "self.target"]
-        ok = len(asg) == 1 and unparse(asg[0].value) == f"{tparam}()"
+        ok = assigned_values(repo, ci, init, "self.target") == [f"{tparam}()"]
         chk.add("C11-R5", f"{ci.qual}.__init__", ok, site(repo, init), f"self.target = {tparam}()  (a conditioned copy of the caller's joint)",
                 f"the sampler keeps a reference to the caller's joint distribution instead of a conditioned copy", asg[0] if asg else init)
         # every later use conditions self.target by call, never writes into it
